@@ -179,6 +179,28 @@ func checkC11(c *Check) {
 			c.require(ok, "C11.4 inbound-never-dials", "peer.handleStateTransition", name, p.Pos(fn.Pos()), "the inbound FSM is disabled, the outbound FSM re-enabled, and the downward transition is never approved")
 		}
 	}
+	c.passiveNeverDials("C11.4 passive-never-dials")
+	c.inboundLookup("C11.2 inbound-reaches-peer", "C11.2 inbound-reaches-peer")
+	c.dampPeerRule("C11.1 cease-not-damped")
+	// the damping timer re-enables the outbound FSM and clears hold-down
+	c.holdDownSemantics("C11.5 resume-after-holddown")
+	c.readerHandoff()
+	c.timerDiscipline("C11.3 timers-armed")
+}
+
+func contains(xs []string, x string) bool {
+	for _, y := range xs {
+		if y == x {
+			return true
+		}
+	}
+	return false
+}
+
+// passiveNeverDials: enableFSM, the only creator of outbound FSMs, creates one
+// exactly for non-passive peers (whoever calls it).
+func (c *Check) passiveNeverDials(rule string) {
+	p := c.P
 	// enableFSM: passive peers get no outbound FSM
 	if fn := p.Fn("peer.enableFSM"); fn != nil {
 		for _, pv := range []int64{1, 0} {
@@ -203,20 +225,7 @@ func checkC11(c *Check) {
 					created = true
 				}
 			}
-			c.require(created == (pv == 0), "C11.4 passive-never-dials", "peer.enableFSM", fmt.Sprintf("outbound FSM, passive=%d", pv), p.Pos(fn.Pos()), "an outbound FSM is created exactly for non-passive peers")
+			c.require(created == (pv == 0), rule, "peer.enableFSM", fmt.Sprintf("outbound FSM, passive=%d", pv), p.Pos(fn.Pos()), "an outbound FSM is created exactly for non-passive peers")
 		}
 	}
-	// the damping timer re-enables the outbound FSM and clears hold-down
-	c.holdDownSemantics("C11.5 resume-after-holddown")
-	c.readerHandoff()
-	c.timerDiscipline("C11.3 timers-armed")
-}
-
-func contains(xs []string, x string) bool {
-	for _, y := range xs {
-		if y == x {
-			return true
-		}
-	}
-	return false
 }
